@@ -411,6 +411,14 @@ fn typed_rt<T: Form + RecognizerReadable + PartialEq + std::fmt::Debug>(w: &Watc
     out.join(" ")
 }
 
+fn typed_replay<T: Form + RecognizerReadable + PartialEq + std::fmt::Debug>(w: &Watch, op: &str, text: &str) -> String {
+    match guarded(w, op, || parse_recognize::<T>(text, false)) {
+        Ok(Ok(t)) => typed_rt(w, op, &t),
+        Ok(Err(_)) => "err err err".into(),
+        Err(()) => "panic panic panic".into(),
+    }
+}
+
 fn rand_string(rng: &mut Rng) -> String {
     gen_text(rng)
 }
@@ -1129,7 +1137,17 @@ fn exec(w: &Watch, t: &Tr, op: &str) {
             Some(b) => chunk_op(w, op, &b, cs),
             None => "bad-op".into(),
         },
-        ["typed", ..] => "skipped".into(),
+        ["typed", kind, h] => match unhex(h).and_then(|b| String::from_utf8(b).ok()) {
+            // the op carries the compact print of the typed value: rebuild the value from it
+            Some(text) => match *kind {
+                "plain" => typed_replay::<Plain>(w, op, &text),
+                "tagged" => typed_replay::<Tagged>(w, op, &text),
+                "shape" => typed_replay::<Shape>(w, op, &text),
+                "outer" => typed_replay::<Outer>(w, op, &text),
+                _ => "bad-op".into(),
+            },
+            None => "bad-op".into(),
+        },
         _ => "bad-op".into(),
     };
     t.op(op, out);
